@@ -179,7 +179,8 @@ deriving DecidableEq, Repr
 inductive Action where
   | ret (c : RClass) (key : PyVal) (kwargs : Dict)    -- `return cls(key, **kwargs)`
   | retNone                                           -- `return None`
-  | retOther                                          -- returns something that is not a Response
+  | retOther (truthy : Bool)                          -- returns something that is neither None nor a Response;
+                                                      -- `truthy` = bool(value): False, 0, '', [], {}, () … are falsy
   | raise (e : Exc)
 deriving DecidableEq, Repr
 
@@ -253,7 +254,7 @@ def invoke (env : Env) (r : Rule) : Proc :=
   match r.act with
   | .ret c key kwargs => ofMk (mkResp env.limit c key kwargs)
   | .retNone => ofMk (mkResp env.limit env.cfg.noneCls (.str env.cfg.noneKey) [])
-  | .retOther => .raised .badReturn
+  | .retOther _ => .raised .badReturn                 -- `isinstance`, not truthiness, decides
   | .raise .skip => .skipped []
   | .raise .content => .skipped [.content]
   | .raise .calledProc => .skipped [.calledProc]
@@ -374,6 +375,50 @@ def step (env : Env) (st : St) (r : Rule) : St :=
 /-- the rules of the graph in the order the engine runs them -/
 def run (env : Env) (seed : List Comp) (rules : List Rule) : St :=
   rules.foldl (step env) (St.init seed)
+
+/-! ### one evaluator object hooked to its broker over a history of uses
+
+`Formatter.__enter__` = `preprocess()` = `broker.add_observer(self.observer)`; `broker.observers[type]` is a SET of
+callables and a bound method equals itself, so registering again changes nothing.  `dr.run` fires the observers
+for EVERY component of the run order — also for components that are only mentioned as dependencies (not keys of
+the graph) and for components that are already in the broker; such components are not processed again. -/
+
+abbrev ObsId := Nat
+
+/-- the evaluator's own `self.observer` bound method -/
+def evalObs : ObsId := 0
+
+/-- `set.add` on the observers of a component type -/
+def addObserver (o : ObsId) (l : List ObsId) : List ObsId := if l.contains o then l else l ++ [o]
+
+/-- the guard and ladder of run_components without the observers; `inGraph` = `component in components` -/
+def engineStep (env : Env) (inGraph : Bool) (st : St) (r : Rule) : St :=
+  if !st.present.contains r.id && inGraph && r.enabled then applyProc env st r (process env st.present r) else st
+
+/-- `fire_observers`: every registered callable once; only the evaluator's touches the evaluator -/
+def dispatch (observers : List ObsId) (st : St) (r : Rule) : St :=
+  observers.foldl (fun s o => if o = evalObs then observe s r else s) st
+
+structure HSt where
+  st : St
+  observers : List ObsId
+
+/-- one element of a run order: the rule and whether it is a key of the graph -/
+abbrev Fired := Rule × Bool
+
+def stepH (env : Env) (h : HSt) (f : Fired) : HSt :=
+  { h with st := dispatch h.observers (engineStep env f.2 h.st f.1) f.1 }
+
+inductive Op where
+  | register (o : ObsId)          -- add_observer / preprocess() / __enter__ / the start of process()
+  | run (fired : List Fired)      -- dr.run(graph, broker=e.broker): the rules of the run order, in order
+
+def applyOp (env : Env) (h : HSt) : Op → HSt
+  | .register o => { h with observers := addObserver o h.observers }
+  | .run fired => fired.foldl (stepH env) h
+
+def runHistory (env : Env) (seed : List Comp) (ops : List Op) : HSt :=
+  ops.foldl (applyOp env) ⟨St.init seed, []⟩
 
 /-! ### `get_response` and `get_response_of_types` -/
 
